@@ -1,5 +1,5 @@
 //! C08: observe the calls `Parser::lr` / `lr_upto` make to the production actions.
-//! case:   `<kind> <hexsrc> <rec: 0|1> [costs=<c>,<c>,…] ; name@s-e name@s-e … ; …`     (one parse per `;` group)
+//! case:   `<kind> <hexsrc> <rec: 0|1> [costs=<c>,<c>,…] [det=<N>] ; name@s-e name@s-e … ; …`     (one parse per `;` group)
 //!         `costs=…` (optional): BOTH builders (the `parse_actions` one and the `parse_map` one) get
 //!         `.term_costs(f)` with f(tidx) = the (tidx mod length)-th number of the list (1..=255); without it
 //!         `term_costs` is not called (default: every token costs 1)
@@ -18,6 +18,17 @@
 //!   ` # TA <tree>`                    tree built by the recording actions (`-` if none)
 //!   ` # OG … # EG … # RG … # TG <tree>`   the same through parse_map (generic tree mode)
 //!   ` # TC <cost of token 0> <cost of token 1> …`   (once per case, only with `costs=`) the cost function in effect
+//!   ` # QA <nties> <seq>|<seq>|…`     right after each RA (` # QG …` after each RG): the repair sequences in the ORDER
+//!        `repairs()` reports them (not sorted); <nties> = how many of them have the rank key of `repairs()[0]`
+//!        (contains an %avoid_insert token, length) — 2 or more: the applied sequence was picked among equals;
+//!        `QA <nties> *` when there are more than 64 sequences
+//!   ` # DET <rounds> <status>`        only with the head word `det=<N>` and recovery on, for an input on which the first
+//!        parse_actions run reported an error: parse_actions and parse_map were run <rounds> more times each, alternately, in
+//!        this process, and every run was compared with the first one of its mode (and the first runs of the two modes
+//!        with each other) on: verdict, tree, errors and the full ORDERED repairs() list of every error
+//!        (`Delete`/`Shift` with their lexemes).  <status> = `same` | `slow` (first runs took long: a later run may be cut by
+//!        the recovery time budget; not repeated) | `cut` (two runs differ and one of them has an error without repairs = a search
+//!        the budget cut short; not a comparison) | `diff <AG|A|G> <round> <hex first signature> <hex other signature>`
 //! trees: `(ridx kid …)` / `[tok s e f]`
 use gvh::common::*;
 use gvh::util::*;
@@ -102,7 +113,79 @@ fn mk_action<'b, 'input, 'p>(pidx: usize) -> Act<'b, 'input, 'p> {
     })
 }
 
-fn pp_errors(o: &mut String, tag: &str, rtag: &str, errs: &[LexParseError<u32, LT>]) {
+fn seq_str(sq: &[ParseRepair<Lx, u32>]) -> String {
+    let x = sq
+        .iter()
+        .map(|r| match r {
+            ParseRepair::Insert(t) => format!("I{}", usize::from(*t)),
+            ParseRepair::Delete(_) => "D".to_string(),
+            ParseRepair::Shift(_) => "S".to_string(),
+        })
+        .collect::<Vec<_>>()
+        .join(",");
+    if x.is_empty() { "-".to_string() } else { x }
+}
+
+/// how many of the reported sequences have the rank key of the first one (simplify_repairs sorts by
+/// (contains an %avoid_insert token, length) and by nothing else)
+fn first_rank_ties(grm: &cfgrammar::yacc::YaccGrammar<u32>, rs: &[Vec<ParseRepair<Lx, u32>>]) -> usize {
+    let key = |sq: &Vec<ParseRepair<Lx, u32>>| {
+        (sq.iter().any(|r| matches!(r, ParseRepair::Insert(t) if grm.avoid_insert(*t))), sq.len())
+    };
+    match rs.first() {
+        None => 0,
+        Some(f) => {
+            let k = key(f);
+            rs.iter().filter(|x| key(x) == k).count()
+        }
+    }
+}
+
+/// everything C08 lets a caller observe of one parse, the ORDER of repairs() included
+fn signature(verdict: &str, tree: Option<&T2>, errs: &[LexParseError<u32, LT>]) -> (String, bool) {
+    let mut o = String::from(verdict);
+    let mut cut = false;
+    o.push_str(" T ");
+    match tree {
+        Some(t) => t.pp(&mut o),
+        None => o.push('-'),
+    }
+    for e in errs {
+        match e {
+            LexParseError::ParseError(e) => {
+                let l = e.lexeme();
+                write!(o, " E {}:{}:{} {} [", l.tok_id(), l.span().start(), l.span().end(), usize::from(e.stidx())).unwrap();
+                if e.repairs().is_empty() {
+                    cut = true;
+                }
+                for (i, sq) in e.repairs().iter().enumerate() {
+                    if i > 0 {
+                        o.push('|');
+                    }
+                    for (j, r) in sq.iter().enumerate() {
+                        if j > 0 {
+                            o.push(',');
+                        }
+                        match r {
+                            ParseRepair::Insert(t) => write!(o, "I{}", usize::from(*t)).unwrap(),
+                            ParseRepair::Delete(l) => {
+                                write!(o, "D{}:{}:{}", l.tok_id(), l.span().start(), l.span().end()).unwrap()
+                            }
+                            ParseRepair::Shift(l) => {
+                                write!(o, "S{}:{}:{}", l.tok_id(), l.span().start(), l.span().end()).unwrap()
+                            }
+                        }
+                    }
+                }
+                o.push(']');
+            }
+            LexParseError::LexError(_) => o.push_str(" E lexerr"),
+        }
+    }
+    (o, cut)
+}
+
+fn pp_errors(o: &mut String, tag: &str, rtag: &str, qtag: &str, grm: &cfgrammar::yacc::YaccGrammar<u32>, errs: &[LexParseError<u32, LT>]) {
     for e in errs {
         match e {
             LexParseError::ParseError(e) => {
@@ -139,45 +222,95 @@ fn pp_errors(o: &mut String, tag: &str, rtag: &str, errs: &[LexParseError<u32, L
                     seqs.sort();
                     write!(o, " # {} {}", rtag, seqs.join("|")).unwrap();
                 }
+                if !e.repairs().is_empty() {
+                    let nt = first_rank_ties(grm, e.repairs());
+                    if e.repairs().len() > 64 {
+                        write!(o, " # {} {} *", qtag, nt).unwrap();
+                    } else {
+                        let ordered: Vec<String> = e.repairs().iter().map(|sq| seq_str(sq)).collect();
+                        write!(o, " # {} {} {}", qtag, nt, ordered.join("|")).unwrap();
+                    }
+                }
             }
             LexParseError::LexError(_) => write!(o, " # {} lexerr", tag).unwrap(),
         }
     }
 }
 
-fn one_input(
-    o: &mut String,
-    b: &Built,
-    toks: &[u32],
-    spans: &[(usize, usize)],
-    faulty: &[bool],
+type ActRes = Result<(Option<(usize, T2)>, Vec<LexParseError<u32, LT>>), String>;
+type GenRes = Result<(Option<T2>, Vec<LexParseError<u32, LT>>), String>;
+
+struct Input<'x> {
+    b: &'x Built,
+    toks: &'x [u32],
+    spans: &'x [(usize, usize)],
+    faulty: &'x [bool],
     rk: RecoveryKind,
-    costs: &Option<Vec<u8>>,
-) {
+    costs: &'x Option<Vec<u8>>,
+}
+
+impl Input<'_> {
     // the SAME cost function for both modes (None: term_costs is not called)
-    let costf = |t: cfgrammar::TIdx<u32>| -> u8 {
-        match costs {
+    fn cost(&self, t: cfgrammar::TIdx<u32>) -> u8 {
+        match self.costs {
             Some(c) if !c.is_empty() => c[usize::from(t) % c.len()],
             _ => 1,
         }
-    };
-    // ---- parse_actions with one recording closure per production
-    let log: RefCell<Vec<Call>> = RefCell::new(Vec::new());
-    let lexer = ReplayLexer::with_spans(toks.to_vec(), spans.to_vec()).with_faulty(faulty.to_vec());
-    let r = catch(std::panic::AssertUnwindSafe(|| {
-        let boxed: Vec<Act> = (0..usize::from(b.grm.prods_len())).map(mk_action).collect();
-        let actions: Vec<&ActDyn> = boxed.iter().map(|x| &**x).collect();
-        let pb = RTParserBuilder::<u32, LT>::new(&b.grm, &b.st).recoverer(rk);
-        let pb = if costs.is_some() { pb.term_costs(&costf) } else { pb };
-        let (v, errs) = pb.parse_actions(&lexer, &actions, (MAGIC, &log));
-        (v.map(|v| (v.id, v.tree)), errs)
-    }));
+    }
+
+    /// parse_actions with one recording closure per production (a fresh single-shot lexer per run)
+    fn run_actions(&self) -> (ActRes, Vec<Call>) {
+        let costf = |t: cfgrammar::TIdx<u32>| -> u8 { self.cost(t) };
+        let log: RefCell<Vec<Call>> = RefCell::new(Vec::new());
+        let lexer = ReplayLexer::with_spans(self.toks.to_vec(), self.spans.to_vec()).with_faulty(self.faulty.to_vec());
+        let r = catch(std::panic::AssertUnwindSafe(|| {
+            let boxed: Vec<Act> = (0..usize::from(self.b.grm.prods_len())).map(mk_action).collect();
+            let actions: Vec<&ActDyn> = boxed.iter().map(|x| &**x).collect();
+            let pb = RTParserBuilder::<u32, LT>::new(&self.b.grm, &self.b.st).recoverer(self.rk);
+            let pb = if self.costs.is_some() { pb.term_costs(&costf) } else { pb };
+            let (v, errs) = pb.parse_actions(&lexer, &actions, (MAGIC, &log));
+            (v.map(|v| (v.id, v.tree)), errs)
+        }));
+        (r, log.into_inner())
+    }
+
+    /// the generic tree through parse_map on the same lexemes
+    fn run_generic(&self) -> GenRes {
+        let costf = |t: cfgrammar::TIdx<u32>| -> u8 { self.cost(t) };
+        let lexer = ReplayLexer::with_spans(self.toks.to_vec(), self.spans.to_vec()).with_faulty(self.faulty.to_vec());
+        catch(std::panic::AssertUnwindSafe(|| {
+            let pb = RTParserBuilder::<u32, LT>::new(&self.b.grm, &self.b.st).recoverer(self.rk);
+            let pb = if self.costs.is_some() { pb.term_costs(&costf) } else { pb };
+            pb.parse_map(&lexer, &|l: Lx| term(l), &|ridx, nodes| T2::Nonterm(u32::from(ridx), nodes))
+        }))
+    }
+}
+
+fn sig_actions(r: &ActRes) -> (String, bool) {
+    match r {
+        Err(m) => (format!("panic {}", m.replace('\n', " ")), false),
+        Ok((Some((_, t)), errs)) => signature("acc", Some(t), errs),
+        Ok((None, errs)) => signature("none", None, errs),
+    }
+}
+
+fn sig_generic(r: &GenRes) -> (String, bool) {
+    match r {
+        Err(m) => (format!("panic {}", m.replace('\n', " ")), false),
+        Ok((Some(t), errs)) => signature("acc", Some(t), errs),
+        Ok((None, errs)) => signature("none", None, errs),
+    }
+}
+
+fn one_input(o: &mut String, inp: &Input, det: usize) {
+    let t0 = std::time::Instant::now();
+    let (r, log) = inp.run_actions();
     match &r {
         Err(m) => write!(o, " # OA panic {}", m.replace('\n', " ").replace('#', "")).unwrap(),
         Ok((Some((id, _)), _)) => write!(o, " # OA acc {}", id).unwrap(),
         Ok((None, _)) => o.push_str(" # OA none"),
     }
-    for (k, c) in log.borrow().iter().enumerate() {
+    for (k, c) in log.iter().enumerate() {
         write!(o, " # L {} {} {} {} {} {}", k, c.pidx, c.ridx, c.span.0, c.span.1, c.param).unwrap();
         for a in &c.args {
             match a {
@@ -187,25 +320,19 @@ fn one_input(
         }
     }
     if let Ok((v, errs)) = &r {
-        pp_errors(o, "EA", "RA", errs);
+        pp_errors(o, "EA", "RA", "QA", &inp.b.grm, errs);
         o.push_str(" # TA ");
         match v {
             Some((_, t)) => t.pp(o),
             None => o.push('-'),
         }
     }
-    // ---- the generic tree through parse_map on the same lexemes
-    let lexer = ReplayLexer::with_spans(toks.to_vec(), spans.to_vec()).with_faulty(faulty.to_vec());
-    let r = catch(std::panic::AssertUnwindSafe(|| {
-        let pb = RTParserBuilder::<u32, LT>::new(&b.grm, &b.st).recoverer(rk);
-        let pb = if costs.is_some() { pb.term_costs(&costf) } else { pb };
-        pb.parse_map(&lexer, &|l: Lx| term(l), &|ridx, nodes| T2::Nonterm(u32::from(ridx), nodes))
-    }));
-    match r {
+    let rg = inp.run_generic();
+    match &rg {
         Err(m) => write!(o, " # OG panic {}", m.replace('\n', " ").replace('#', "")).unwrap(),
         Ok((v, errs)) => {
             o.push_str(if v.is_some() { " # OG acc" } else { " # OG none" });
-            pp_errors(o, "EG", "RG", &errs);
+            pp_errors(o, "EG", "RG", "QG", &inp.b.grm, errs);
             o.push_str(" # TG ");
             match v {
                 Some(t) => t.pp(o),
@@ -213,6 +340,49 @@ fn one_input(
             }
         }
     }
+    // ---- the applied repair is a function of the input: repeat both modes in this process
+    let erroneous = matches!(&r, Ok((_, errs)) if !errs.is_empty());
+    if det == 0 || !erroneous || !matches!(inp.rk, RecoveryKind::CPCTPlus) {
+        return;
+    }
+    let first_ms = t0.elapsed().as_millis();
+    let (sa0, cut_a) = sig_actions(&r);
+    let (sg0, cut_g) = sig_generic(&rg);
+    if sa0 != sg0 {
+        if cut_a || cut_g {
+            write!(o, " # DET 0 cut").unwrap();
+        } else {
+            write!(o, " # DET 0 diff AG 0 {} {}", hex(&sa0), hex(&sg0)).unwrap();
+        }
+        return;
+    }
+    if first_ms > 24 {
+        write!(o, " # DET 0 slow").unwrap();
+        return;
+    }
+    for round in 1..=det {
+        let (ra, _) = inp.run_actions();
+        let (sa, cut) = sig_actions(&ra);
+        if sa != sa0 {
+            if cut || cut_a {
+                write!(o, " # DET {} cut", round).unwrap();
+            } else {
+                write!(o, " # DET {} diff A {} {} {}", round, round, hex(&sa0), hex(&sa)).unwrap();
+            }
+            return;
+        }
+        let rg = inp.run_generic();
+        let (sg, cut) = sig_generic(&rg);
+        if sg != sg0 {
+            if cut || cut_g {
+                write!(o, " # DET {} cut", round).unwrap();
+            } else {
+                write!(o, " # DET {} diff G {} {} {}", round, round, hex(&sg0), hex(&sg)).unwrap();
+            }
+            return;
+        }
+    }
+    write!(o, " # DET {} same", det).unwrap();
 }
 
 fn main() {
@@ -224,9 +394,11 @@ fn main() {
         let kind = hs.next().unwrap().to_string();
         let src = unhex(hs.next().unwrap_or(""));
         let rec = hs.next().unwrap_or("0") == "1";
-        let costs: Option<Vec<u8>> = hs.next().and_then(|w| w.strip_prefix("costs=")).map(|l| {
+        let opts: Vec<&str> = hs.collect();
+        let costs: Option<Vec<u8>> = opts.iter().find_map(|w| w.strip_prefix("costs=")).map(|l| {
             l.split(',').filter(|x| !x.is_empty()).map(|x| x.parse::<u8>().unwrap_or(1).max(1)).collect()
         });
+        let det: usize = opts.iter().find_map(|w| w.strip_prefix("det=")).and_then(|x| x.parse().ok()).unwrap_or(0);
         let b = match catch(std::panic::AssertUnwindSafe(|| build(&kind, &src))) {
             Err(m) => return format!("BUILDPANIC {}", m.replace('\n', " ")),
             Ok(Err(e)) => return e,
@@ -297,7 +469,15 @@ fn main() {
                     o.push(if *f { '1' } else { '0' });
                 }
             }
-            one_input(&mut o, &b, &toks, &spans, &faulty, if rec { RecoveryKind::CPCTPlus } else { RecoveryKind::None }, &costs);
+            let inp = Input {
+                b: &b,
+                toks: &toks,
+                spans: &spans,
+                faulty: &faulty,
+                rk: if rec { RecoveryKind::CPCTPlus } else { RecoveryKind::None },
+                costs: &costs,
+            };
+            one_input(&mut o, &inp, det);
         }
         o
     });
